@@ -200,5 +200,30 @@ P("C26", "exploration",
   [H("stepped", "h_relay", 2000, 300000, hprop="C26")], [A_SAN],
   {"release.all-clients-left": 1500, "release.post-run-probes": 1500, "streams.huge-lines": 300, "streams.abrupt-resets": 500})
 
+P("C27", "exploration",
+  "case = in-process ControlServer + Node with a random control token; 10 raw requests drawn from {STORE, FETCH STREAM:client, FETCH OUT:<path>, STOP} x token {absent, wrong, proper prefix, proper suffix, case-changed, extra whitespace, empty, doubled, exact} x shuffled header order (held and foreign manifests); "
+  "oracle: without the exact token STATUS:ERROR with an *UNAUTH* code, derived-state snapshot unchanged, no file at <path>, stop callback not invoked, transport not stopped, PING still answered; with the exact token the request succeeds; distinct = (command, variant) sequence",
+  [H("main", "h_control", 300, 20000, hprop="C27")], [A_SAN, A_VCLK, "the daemon's STOP effect is observed through the stop callback and ControlServer's transport_stopped_ flag (TU inclusion)"],
+  {"requests.unauthorised": 1500, "requests.authorised-expected-to-succeed": 100, "requests.authorised-stop": 50})
+
+P("C28", "exploration",
+  "case%4 selects: payload cap (declared lengths cap+1 .. 2^64+ with NO body byte sent: the refusal must still arrive; cap and below accepted); TTL window (min-1/min/max/max+1/0/negative/huge/malformed/absent; also the control-plane half of C02); "
+  "store PoW (valid, other nonce, nonce for a shorter payload, for another filename, missing, malformed; reference = lz_ref(repository digest of (sha256(body), size, sanitised name)) >= d); "
+  "rate limit without a token (10..50 STOREs or streamed FETCHes from one address with fresh/empty/same TOKEN or other headers, virtual time steps 0..31 s; <= 6 / <= 12 accepted in any 30 s); distinct = scenario x parameter sequence",
+  [H("main", "h_control", 400, 30000, hprop="C28")], [A_SAN, A_VCLK, A_OSSL],
+  {"size.oversized-declarations": 150, "ttl.out-of-window-requests": 150, "ttl.in-window-requests": 100, "pow.invalid-proofs": 150, "pow.valid-proofs": 50, "rate.refused": 100})
+
+P("C29", "exploration",
+  "case = daemon state with 0..40 chunks, 0..4 advertised endpoints, 0..3 bootstrap nodes, 0..3 warnings; the repository's own ControlClient sends LIST / DEFAULTS / STATUS / DIAGNOSTICS / STORE / FETCH to the in-process server; "
+  "every value the daemon produced is recomputed from node state and must equal what the client parsed (multi-line values compared line by line), payload bytes equal; distinct = (chunks, endpoints, bootstrap nodes, warnings)",
+  [H("main", "h_control", 200, 20000, hprop="C29")], [A_SAN, A_VCLK, "the black-box `eph list` run is part of the CLI driver (thorough)"],
+  {"fields.compared": 3000, "commands.LIST": 200, "list.entries-expected": 300})
+
+P("C35", "exploration",
+  "part control: 8 hostile connections per case to the in-process ControlServer (header without colon, 16 KiB+ lines, no newline at all, PAYLOAD-LENGTH variants, empty / huge / unwritable OUT:, garbage manifests, unknown commands, binary, truncated payloads, 2000 headers, CRLF), client closing with or without reading the reply, SIGPIPE left at its default as in `eph serve`; "
+  "after every hostile connection an honest PING must be answered; part transport (h_transport): raw TCP peer before and after a genuine handshake; any sanitizer report, terminate or fatal signal is a violation; distinct = hostile-kind sequence",
+  [H("control", "h_control", 400, 60000, hprop="C35c")], [A_SAN, "bounded progress: an honest client must be answered within the 10 s watchdog"],
+  {"control.hostile-connections": 3000, "control.honest-pings-served": 3000})
+
 NOT_APPLICABLE = {}
 HOOK_COMMITS = []
